@@ -415,6 +415,22 @@ def correspondence(prop, results):
 
 
 def main(prop, argv=None):
+    """run the check; if the check's own code fails on this tree (an observation helper that no longer fits the
+    code, a driver that trips over a changed signature...), the property is no longer shown to hold: report that as
+    a violation without a failing input, naming what failed, instead of dying with a traceback"""
+    try:
+        return _main(prop, argv)
+    except Exception as exc:       # noqa: BLE001 - deliberately everything but SystemExit/KeyboardInterrupt
+        import traceback
+        tb = traceback.format_exc()
+        rp = write_replay(prop.id, 'check-could-not-run', {'broken': ['the check itself failed on this tree: %r' % (exc,)],
+                                                           'traceback': tb[-4000:]})
+        log('VIOLATION property=%s replay=%s no-failing-input-found' % (prop.id, rp))
+        log('  broken: the check itself failed on this tree (%s: %s); see the traceback in the replay file' % (type(exc).__name__, exc))
+        return 1
+
+
+def _main(prop, argv=None):
     import argparse
     ap = argparse.ArgumentParser()
     ap.add_argument('--tier', default=os.environ.get('VERIF_TIER', 'quick'))
